@@ -675,6 +675,12 @@ def bounded(payload):
             for perm in _it.permutations(four):
                 run({"target": "fortran", "ops": [list(x) for x in perm]})
 
+    # ---- a function whose name is the identifier of a variable in the same scope (functions and locals share one name space) ----
+    for b in ["x", "y", "k_0"]:
+        for fn in ("lploc_" + b, "<func>lploc_" + b, "LPLOC_" + b):
+            for perm in _it.permutations([["var", b], ["func", fn], ["fcall", fn, 0]]):
+                run({"target": "fortran", "ops": [list(x) for x in perm]})
+
     # ---- random tail ----
     for i in range(n_random):
         target = "python" if i % 2 == 0 else "fortran"
